@@ -128,7 +128,7 @@ CLAIMED = {
          "leaves the order unconstrained), proved via the sort contract; filterDependencies' result is a function of the candidate SET "
          "except within genuinely tied candidates ([unique-primary-wins], [unique-unnamed-wins], [tie-stays-in-best-class]) and never selects "
          "the holder itself ([self-never-beats-other], the repaired F-C10); the singleton registry never lets the second of two different components "
-         "under one name return normally ([duplicate-name-rejected], relative to A-LOG-PANIC: Logger.Panicf does not return), so which one is "
+         "under one name return normally ([duplicate-name-rejected], relative to A-LOG-PANIC: the installed Logger's Panicf does not return - proved of the built-in logger since the fix F-C10b, assumed of a user-supplied one), so which one is "
          "kept cannot depend on registration order.",
          "DESIGN.md section 5 C10",
          "contract-based deductive verification (govc WP over go/ssa, z3/cvc5)",
